@@ -661,11 +661,13 @@ func init() {
 			// a delimiter byte outside ASCII (0xA7) with cells of non-UTF-8 bytes
 			jobs = append(jobs, Job{Harness: "VX_C12_scan", Params: P("L", "4", "cap", "1024", "sched", "whole", "delim", "167"), MaxPaths: 2000000})
 			jobs = append(jobs, Job{Harness: "VX_C12_scan", Params: P("L", "3", "cap", "1", "sched", "any", "delim", "167"), MaxPaths: 2000000})
+			jobs = append(jobs, Job{Harness: "VX_C12_infer", Params: P("rows", "1", "emptynull", "false", "wide", "1"), MaxPaths: 500000})
+			jobs = append(jobs, Job{Harness: "VX_C12_infer", Params: P("rows", "2", "emptynull", "true", "wide", "1"), MaxPaths: 500000})
 			for _, en := range []string{"false", "true"} {
 				jobs = append(jobs, Job{Harness: "VX_C12_infer", Params: P("rows", "1", "emptynull", en), MaxPaths: 500000})
 				jobs = append(jobs, Job{Harness: "VX_C12_infer", Params: P("rows", "2", "emptynull", en), MaxPaths: 500000})
 			}
-			for _, c := range []string{"headers", "ignore_empty", "empty_kept_single_col", "rename_dup", "ignore_empty_single_col", "rename_dup_later", "enum_map_reuse", "missing_alias", "delimiter", "enum_declared", "typed_failure", "column_count", "rowcount_hint"} {
+			for _, c := range []string{"headers", "ignore_empty", "empty_kept_single_col", "rename_dup", "ignore_empty_single_col", "rename_dup_later", "enum_map_reuse", "enum_option_reuse", "missing_alias", "delimiter", "enum_declared", "typed_failure", "column_count", "rowcount_hint"} {
 				jobs = append(jobs, Job{Harness: "VX_C12_options", Params: P("case", c), MaxSteps: 80000000})
 			}
 			return jobs
